@@ -31,6 +31,12 @@ SOURCES_OK = {
     "Terminal._create_local_connection:datetime.now": "timestamp field of a connection object: displayed only",
     "Terminal._send_remote_login:uuid.uuid4": "opaque connection request identifier",
     "Terminal._create_remote_connection:datetime.now": "timestamp field of a connection object: displayed only",
+    # secrets.* (never seeded).  Allowed where the value is rendered with a fixed length (so Frame.size, the length of the frame's JSON,
+    # does not depend on it) and is only ever compared for equality; the ICMP identifier is NOT allowed (known finding F22)
+    "generate_mac_address:secrets.randbits": "six bytes rendered as two hex digits each: fixed length; MAC addresses are compared for equality and are keys of tables iterated in insertion order",
+    "RouterICMP._process_icmp_echo_request:secrets.token_urlsafe": "echo payload of a fixed number of bytes (fixed rendered length), never inspected",
+    "ICMP._send_icmp_echo_request:secrets.token_urlsafe": "echo payload of a fixed number of bytes (fixed rendered length), never inspected",
+    "ICMP._process_icmp_echo_request:secrets.token_urlsafe": "echo payload of a fixed number of bytes (fixed rendered length), never inspected",
 }
 scan("C03", "unpredictable-sources", lambda: scans.unpredictable_sources(SOURCES_OK))
 
